@@ -17,7 +17,13 @@ Histories: all ordered pairs (x3 argument patterns: repeated key, alternating ke
 kinds on one reader, for chunk_cache_size in {1, 2, default} x preload in {False, True}; random histories over 2-3
 readers of the same path + one seismic_zfp.open object + a reader of ANOTHER file of the same geometry (a class-level
 key without the loader identity would serve its data), with readers opened and closed in between.
-Files: regular 3D in three layouts (4x4xN fast paths, z-slice layout, general layout), irregular 3D, 2D (two layouts).
+Files: regular 3D in three layouts (4x4xN fast paths, z-slice layout, general layout), irregular 3D, 2D (two layouts);
+the 4x4xN and the general layout also with traces deeper than one block (shape_pad[2] > blockshape[2]: a z-window, a
+chunk and a trace are three different things there).
+Structural sub-volumes: read_subvolume with every axis extent drawn from the sizes the layout is made of (whole axis,
+every 4-unit of the axis without the whole axis, one block, one block length unaligned, one unit) -- the windows for
+which a shortcut keyed on 'as many units as ...' could fire -- as two operation kinds of the pair / triple histories
+and as random draws in the multi-reader histories.
 """
 import os, sys, itertools, functools
 sys.path.insert(0, os.path.dirname(os.path.abspath(__file__)))
@@ -33,7 +39,8 @@ R = Result('one case = one operation of one history (file layout, reader configu
            'non-trivial = the operation returns data and is preceded by at least one other operation or open/close event '
            'in its history; histories = all ordered pairs and sampled triples of operation kinds with repeated and '
            'alternating arguments x chunk_cache_size {1,2,default} x preload {F,T}, plus random multi-reader histories '
-           '(2-3 readers by path, one seismic_zfp.open object, a reader of another file, opens/closes in between)')
+           '(2-3 readers by path, one seismic_zfp.open object, a reader of another file, opens/closes in between); '
+           'read_subvolume also with structural windows (whole axis / all units / one block / one unit per axis)')
 rng = random.Random(a.seed * 104729 + 15)
 quick = (a.tier == 'quick') and not a.search
 PATCHED = hasattr(SgzReader, '_load_variant_headers')
@@ -78,6 +85,10 @@ def make_files():
     fs.append(reg3d('reg-4x4', (9, 10, 40), 8, (4, 4, -1)))
     fs.append(reg3d('reg-zslice', (9, 10, 13), 8, (32, 32, 4), twin=not quick))
     fs.append(reg3d('reg-general', (9, 10, 40), 8, (8, 8, 64), twin=not quick))
+    # traces spanning more than one block in z (padded to 2 resp. 3 blocks)
+    fs.append(reg3d('reg-4x4-deep', (9, 10, 300), 8, (4, 4, -1), twin=not quick))
+    if not quick:
+        fs.append(reg3d('reg-general-deep', (9, 10, 150), 8, (8, 8, 64), twin=False))
     # irregular 3D
     shape = (6, 7, 24)
     outs = []
@@ -175,6 +186,30 @@ def describe(o):
     return type(v).__name__
 
 
+def axis_windows(n, b, g=None):
+    """structural [lo, hi) windows of an axis of n entries stored in blocks of b (units of 4):
+       whole axis; every unit touched but not the whole axis; first block; last block; one block length, unaligned;
+       one unit.  Without g the deterministic representative of each class."""
+    bl = min(b, n)
+    lo = min(3, n - 1) if g is None else g.randrange(0, min(4, n))
+    hi = n - ((n - 1) % 4 if g is None else g.randrange(0, (n - 1) % 4 + 1))
+    if lo >= hi:
+        lo = hi - 1
+    off = min(40, n - bl) if g is None else g.randrange(0, n - bl + 1)
+    u = (n - 1) // 4 // 2 if g is None else g.randrange(0, (n + 3) // 4)
+    return {'whole': (0, n), 'all-units': (lo, hi), 'first-block': (0, bl), 'last-block': (b * ((n - 1) // b), n),
+            'block-length': (off, off + bl), 'unit': (4 * u, min(4 * u + 4, n))}
+
+
+def structural_subvolume(f, g):
+    """read_subvolume arguments with every extent drawn from the structural windows of its axis"""
+    out = ()
+    for n, b in zip((f.n_il, f.n_xl, f.n_s), f.bs):
+        w = axis_windows(n, b, g)
+        out += w[g.choice(sorted(w))]
+    return out
+
+
 def reader_kinds(f):
     """operation kind -> (A, B): two argument tuples addressing different cache keys"""
     if f.is2d:
@@ -201,6 +236,11 @@ def reader_kinds(f):
         'get_tracefield_values': ((f.stored[0],), (f.stored[-1],)), 'get_tracefield_values_const': ((f.consts[0],), (f.consts[-1],)),
         'read_zslice_oob': ((ns,), (-1,)), 'get_trace_by_coord': ((2, f.zs[1], f.zs[6]), (nt - 2, f.zs[0], f.zs[3])),
     }
+    # structural sub-volumes.  slab: every inline and crossline unit x one block depth (A aligned, B unaligned and cropped
+    # inside the outer units); column: one block of traces x the whole trace (A), one unit of traces x the last block (B)
+    wi, wx, wz = (axis_windows(n, b) for n, b in zip((ni, nx, ns), f.bs))
+    K['read_subvolume_slab'] = (wi['whole'] + wx['whole'] + wz['first-block'], wi['last-block'] + wx['all-units'] + wz['block-length'])
+    K['read_subvolume_column'] = (wi['first-block'] + wx['last-block'] + wz['whole'], wi['unit'] + wx['unit'] + wz['last-block'])
     return K
 
 
@@ -224,6 +264,7 @@ def emu_kinds(f):
 
 def mkop(kind, args):
     base = {'get_tracefield_values_const': 'get_tracefield_values', 'get_trace_oob': 'get_trace', 'get_trace_win': 'get_trace', 'read_zslice_oob': 'read_zslice',
+            'read_subvolume_slab': 'read_subvolume', 'read_subvolume_column': 'read_subvolume',
             'e_trace_slice': 'e_trace', 'e_iline_slice': 'e_iline', 'e_header_slice': 'e_header'}.get(kind, kind)
     return (base,) + tuple(args)
 
@@ -598,6 +639,8 @@ def random_history(f, g, n):
             else:
                 if g.random() < 0.06:
                     ev.append(('op', i, g.choice([('clear_vh',), ('clear_cache',)] + ([('rvh', False, None)] if f.structured else []))))
+                elif not f.is2d and g.random() < 0.12:
+                    ev.append(('op', i, ('read_subvolume',) + structural_subvolume(f, g)))
                 else:
                     k = g.choice(sorted(K))
                     ev.append(('op', i, mkop(k, g.choice(K[k]))))
